@@ -14,7 +14,7 @@ func init() {
 	register(&propDef{
 		ID:  "C14",
 		Run: runC14,
-		Explain: "Decided: (a) every panic-capable construct and every non-range loop in pkg/multiterm/**, pkg/color, the render closures handed to RunAggregationLoop in cmd/, and everything of rare/... they reach (aggregator accessors, formatter expressions, humanize) is discharged by the compiler's prove pass, a dominating-guard rule or a reviewed reason; (b) palette lookups: the bucket count handed to termscaler.Bucket equals the length of the array that is then indexed, HeatWrite/SparkWrite/BarWrite receive only results of Scaler.Scale, and inside Scale the only non-constant return is dominated by the clamps (max<min, val<min, val>max) and by the degenerate-range guard; (c) the integer bar-length division is guarded against a zero maximum; (d) column/row width bookkeeping compares visible lengths (color.StrLen), never byte lengths. " +
+		Explain: "Decided: (a) every panic-capable construct and every non-range loop in pkg/multiterm/**, pkg/color, the render closures handed to RunAggregationLoop in cmd/, and everything of rare/... they reach (aggregator accessors, formatter expressions, humanize) is discharged by the compiler's prove pass, a dominating-guard rule or a reviewed reason; (b) palette lookups: the bucket count handed to termscaler.Bucket equals the length of the array that is then indexed, HeatWrite/SparkWrite/BarWrite receive only results of Scaler.Scale, and inside Scale the only non-constant return is dominated by the clamps (max<min, val<min, val>max) and by the degenerate-range guard; (c) the integer bar-length division is guarded against a zero maximum; (d) column/row width bookkeeping compares visible lengths (color.StrLen), never byte lengths. (e) the block count of a bar is only counted down after the proportional division; the redraw trigger of the bar graph compares the quantity the active mode scales by (sum when stacked, largest part otherwise); every number DataTable formats is the result of an aggregator accessor. " +
 			"NOT decided: that scaled magnitudes are monotone/proportional, that bars grow with the value, column alignment, equality of displayed and aggregated numbers, '(n more)' counts - all value-level layout arithmetic; negative row/column limits (outside the property's quantifier) are not considered.",
 		Assume: []string{
 			"row/column limits given on the command line are >= 0 (the property's quantifier)",
@@ -111,6 +111,8 @@ func runC14(c *Ctx, r *Report) {
 	c14HeaderProgress(c, r)
 	c14Widths(c, r)
 	c14BarClamp(c, r)
+	c14DisplayedFromAggregator(c, r)
+	c14ScaleAgreement(c, r)
 }
 
 // ---------------------------------------------------------------- palettes
@@ -629,8 +631,244 @@ func c14BarClamp(c *Ctx, r *Report) {
 		}
 		r.Check(clamped, rule, fi.Name, exprStr(be), c.Pos(be.Pos()), "guard: the scaled factor is clamped to the divisor first, so the quotient is at most the maximum length",
 			"the bar length "+exprStr(be)+" is computed without clamping the value to the maximum first: a segment larger than the running maximum (negative sibling values) draws a bar wider than the maximum width")
+		// the rounded-down quotient is the length: it is afterwards only counted down (or clamped down). Stacked
+		// segments stay within the maximum width only because each is rounded *down*.
+		var q types.Object
+		ast.Inspect(fi.Decl.Body, func(y ast.Node) bool {
+			if as, ok := y.(*ast.AssignStmt); ok && len(as.Lhs) == 1 && len(as.Rhs) == 1 && ast.Unparen(as.Rhs[0]) == ast.Expr(be) {
+				q = identObj(info, as.Lhs[0])
+			}
+			return true
+		})
+		if q != nil {
+			raised := ""
+			ast.Inspect(fi.Decl.Body, func(y ast.Node) bool {
+				switch t := y.(type) {
+				case *ast.IncDecStmt:
+					if identObj(info, t.X) == q && t.Tok == token.INC {
+						raised = stmtStr(t)
+					}
+				case *ast.AssignStmt:
+					if len(t.Lhs) != 1 || identObj(info, t.Lhs[0]) != q || ast.Unparen(t.Rhs[0]) == ast.Expr(be) {
+						return true
+					}
+					if t.Tok == token.SUB_ASSIGN {
+						return true
+					}
+					// clamp down: `if q > e { q = e }`
+					okClamp := false
+					ast.Inspect(fi.Decl.Body, func(z ast.Node) bool {
+						if is, ok := z.(*ast.IfStmt); ok && within(is.Body, t.Pos()) {
+							if ce, ok := ast.Unparen(is.Cond).(*ast.BinaryExpr); ok && (ce.Op == token.GTR || ce.Op == token.GEQ) && identObj(info, ce.X) == q && exprStr(ce.Y) == exprStr(t.Rhs[0]) && t.Tok == token.ASSIGN {
+								okClamp = true
+							}
+						}
+						return true
+					})
+					if !okClamp {
+						raised = stmtStr(t)
+					}
+				}
+				return true
+			})
+			r.Check(raised == "", rule, fi.Name, q.Name()+" only counts down", c.Pos(be.Pos()), "monotone: the rounded-down block count is never raised afterwards",
+				"the block count is changed after the proportional division ("+raised+"): a stacked bar is the concatenation of its segments, which fit into the maximum width only because every segment is rounded down - raising small segments makes the bar longer than its maximum width")
+		}
 		return true
 	})
 	r.Floor(rule, 1, "barWriteRunes")
 	_ = n
+}
+
+// c14DisplayedFromAggregator (C14-f/displayed-values): the numbers a table
+// shows are the aggregator's numbers. In DataTable.WriteTable every value
+// handed to the formatter is the result of an aggregator accessor (cell,
+// row total, column total, grand total) - directly or through a variable
+// assigned once from such a call - never a figure re-accumulated locally from
+// the rows or columns that happen to be displayed.
+func c14DisplayedFromAggregator(c *Ctx, r *Report) {
+	const rule = "C14-f/displayed-values"
+	fi := c.MustFunc(r, rule, "rare/pkg/multiterm/termrenderers", "(*DataTable).WriteTable")
+	if fi == nil {
+		return
+	}
+	info := fi.Pkg.TypesInfo
+	isAccessor := func(e ast.Expr) bool {
+		ce, ok := ast.Unparen(e).(*ast.CallExpr)
+		if !ok {
+			return false
+		}
+		f := calleeFunc(info, ce)
+		return f != nil && f.Pkg() != nil && f.Pkg().Path() == aggPkg && f.Type().(*types.Signature).Recv() != nil
+	}
+	n := 0
+	ast.Inspect(fi.Decl.Body, func(x ast.Node) bool {
+		ce, ok := x.(*ast.CallExpr)
+		if !ok || len(ce.Args) < 1 {
+			return true
+		}
+		// dynamic call of a function-typed field whose first parameter is int64 (the formatter)
+		se, ok := ce.Fun.(*ast.SelectorExpr)
+		if !ok {
+			return true
+		}
+		fv := fieldVar(info, se)
+		if fv == nil {
+			return true
+		}
+		sig, ok := fv.Type().Underlying().(*types.Signature)
+		if !ok || sig.Params().Len() < 1 {
+			return true
+		}
+		if b, ok := sig.Params().At(0).Type().Underlying().(*types.Basic); !ok || b.Kind() != types.Int64 {
+			return true
+		}
+		n++
+		arg := ast.Unparen(ce.Args[0])
+		okV, why := isAccessor(arg), ""
+		if !okV {
+			if o := identObj(info, arg); o != nil {
+				okV = true
+				seen := false
+				ast.Inspect(fi.Decl.Body, func(y ast.Node) bool {
+					switch t := y.(type) {
+					case *ast.AssignStmt:
+						for i, l := range t.Lhs {
+							if identObj(info, l) != o {
+								continue
+							}
+							seen = true
+							if (t.Tok != token.ASSIGN && t.Tok != token.DEFINE) || len(t.Rhs) != len(t.Lhs) || !isAccessor(t.Rhs[i]) {
+								okV = false
+								why = stmtStr(t)
+							}
+						}
+					case *ast.IncDecStmt:
+						if identObj(info, t.X) == o {
+							okV = false
+							why = stmtStr(t)
+						}
+					}
+					return true
+				})
+				if !seen {
+					okV = false
+					why = "no assignment from an aggregator accessor"
+				}
+			} else {
+				why = "computed expression " + exprStr(arg)
+			}
+		}
+		r.Check(okV, rule, fi.Name, exprStr(ce), c.Pos(ce.Pos()), "flow: the displayed value is what an aggregator accessor returned",
+			"a displayed number is not the aggregator's own figure ("+why+"): a total re-accumulated from the displayed rows/columns differs from the aggregated total as soon as more rows or columns exist than fit on screen")
+		return true
+	})
+	r.Floor(rule, 4, "cell, row total, column total and grand total")
+}
+
+// c14ScaleAgreement (C14-g/scale-agreement): a bar graph rescales (and
+// redraws every earlier row) when a row exceeds the running maximum. The
+// quantity WriteBar compares with the maximum must be the quantity the draw
+// routine of the same mode scales by: the row total when stacked (a sum-shaped
+// helper), the largest part otherwise (a max-shaped helper). Otherwise the
+// draw routine raises the maximum silently and earlier rows keep a stale scale.
+func c14ScaleAgreement(c *Ctx, r *Report) {
+	const rule = "C14-g/scale-agreement"
+	const pkg = "rare/pkg/multiterm/termrenderers"
+	fi := c.MustFunc(r, rule, pkg, "(*BarGraph).WriteBar")
+	if fi == nil {
+		return
+	}
+	info := fi.Pkg.TypesInfo
+	vi := analyseVars(info, fi.Decl)
+	fg := NewFGraph(fi.Decl.Body, info)
+	fg.SolveFacts(vi)
+	shape := func(f *types.Func) string {
+		fd := funcDeclOf(c, f)
+		if fd == nil {
+			return ""
+		}
+		s := ""
+		ast.Inspect(fd.Decl.Body, func(x ast.Node) bool {
+			switch t := x.(type) {
+			case *ast.AssignStmt:
+				if t.Tok == token.ADD_ASSIGN {
+					s = "sum"
+				}
+			case *ast.IfStmt:
+				if be, ok := ast.Unparen(t.Cond).(*ast.BinaryExpr); ok && (be.Op == token.GTR || be.Op == token.LSS) && s == "" {
+					s = "max"
+				}
+			}
+			return true
+		})
+		return s
+	}
+	// the candidate: the variable compared with and assigned to the maximum field
+	var maxField *types.Var
+	var cand types.Object
+	ast.Inspect(fi.Decl.Body, func(x ast.Node) bool {
+		if as, ok := x.(*ast.AssignStmt); ok && len(as.Lhs) == 1 && len(as.Rhs) == 1 {
+			if fv := fieldVar(info, as.Lhs[0]); fv != nil && strings.Contains(strings.ToLower(fv.Name()), "max") {
+				if o := identObj(info, as.Rhs[0]); o != nil {
+					if b, ok := o.Type().Underlying().(*types.Basic); ok && b.Kind() == types.Int64 {
+						maxField, cand = fv, o
+					}
+				}
+			}
+		}
+		return true
+	})
+	if cand == nil {
+		r.Undecided(rule, fi.Name, "running maximum", c.Pos(fi.Decl.Pos()), "update of the running maximum not found in WriteBar")
+		return
+	}
+	_ = maxField
+	got := map[string]string{} // mode -> shape
+	ast.Inspect(fi.Decl.Body, func(x ast.Node) bool {
+		as, ok := x.(*ast.AssignStmt)
+		if !ok || len(as.Lhs) != 1 || len(as.Rhs) != 1 || identObj(info, as.Lhs[0]) != cand {
+			return true
+		}
+		sh := ""
+		if ce, ok := ast.Unparen(as.Rhs[0]).(*ast.CallExpr); ok {
+			if f := calleeFunc(info, ce); f != nil {
+				sh = shape(f)
+			}
+		} else if as.Tok == token.ADD_ASSIGN {
+			sh = "sum" // accumulated in place
+		} else if as.Tok == token.ASSIGN {
+			// `if v > cand { cand = v }` in place
+			ast.Inspect(fi.Decl.Body, func(z ast.Node) bool {
+				if is, ok := z.(*ast.IfStmt); ok && within(is.Body, as.Pos()) {
+					if be, ok := ast.Unparen(is.Cond).(*ast.BinaryExpr); ok && be.Op == token.GTR && identObj(info, be.Y) == cand && exprStr(be.X) == exprStr(as.Rhs[0]) {
+						sh = "max"
+					}
+				}
+				return true
+			})
+		}
+		if sh == "" {
+			return true
+		}
+		mode := "any"
+		for _, fct := range fg.FactsAtPos(as.Pos()) {
+			if fv := fieldVar(info, ast.Unparen(fct.Cond)); fv != nil && fv.Name() == "Stacked" && fct.Tag == nil {
+				if fct.Truth {
+					mode = "stacked"
+				} else {
+					mode = "grouped"
+				}
+			}
+		}
+		got[mode] = sh
+		return true
+	})
+	okStacked := got["stacked"] == "sum" || (got["stacked"] == "" && got["any"] == "sum")
+	okGrouped := got["grouped"] == "max" || (got["grouped"] == "" && got["any"] == "max")
+	r.Check(okStacked, rule, fi.Name, "stacked: row total", c.Pos(fi.Decl.Pos()), "agreement: when stacked, the redraw trigger compares the sum of the parts, which is what the stacked bar is scaled by",
+		fmt.Sprintf("when stacked, WriteBar does not compare the sum of a row's parts with the running maximum (found: %v): a row whose total exceeds the maximum while no single part does raises the scale without redrawing the earlier rows, which then stay drawn against a stale maximum", got))
+	r.Check(okGrouped, rule, fi.Name, "grouped: largest part", c.Pos(fi.Decl.Pos()), "agreement: when not stacked, the redraw trigger compares the largest part",
+		fmt.Sprintf("when not stacked, WriteBar does not compare the largest part with the running maximum (found: %v)", got))
+	r.Floor(rule, 2, "stacked and grouped candidates")
 }
